@@ -244,6 +244,79 @@ func forEachC01Input(w *W, emit emitFn) {
 	c01E5(w, emit)
 	c01E6(w, emit)
 	c01E7(w, emit)
+	c01E8(w, emit)
+	c01E9(w, emit)
+}
+
+// E8: long runs without any structural character (white space between two tokens, one long
+// string), around 64 KiB and its multiples: stage 1 then hands over rounds without indexes.
+func c01E8(w *W, emit emitFn) {
+	sizes := []int{60 << 10, 64<<10 - 64, 64<<10 - 1, 64 << 10, 64<<10 + 1, 64<<10 + 64, 100 << 10, 128<<10 - 64, 128 << 10, 128<<10 + 64, 130 << 10, 192 << 10, 200 << 10, 300 << 10}
+	w.Note(fmt.Sprintf("E8: runs of %d lengths (60 KiB .. 300 KiB, around 64 KiB and 128 KiB) without a structural character: blanks between two array elements, one string value, one string key, blanks in front of the closing bracket; valid, and with a raw control character / a stray token at the end of the run", len(sizes)))
+	for _, n := range sizes {
+		w.res.States++
+		if !w.Mine() {
+			continue
+		}
+		blanks := bytes.Repeat([]byte(" "), n)
+		letters := bytes.Repeat([]byte("abcdefgh"), n/8+1)[:n]
+		for _, in := range [][]byte{
+			append(append([]byte(`[1,`), blanks...), `2]`...),
+			append(append([]byte(`{"k":[0],"v":"`), letters...), `","w":[true]}`...),
+			append(append([]byte(`[{"`), letters...), `":1}]`...),
+			append(append([]byte(`[1,2`), blanks...), `]`...),
+			append(append([]byte(`[1,`), blanks...), "\x01 2]"...),
+			append(append([]byte(`["`), letters...), "\x1f\"]"...),
+			append(append([]byte(`[1`), blanks...), `2]`...),
+		} {
+			w.res.Transitions++
+			emit(in, in[len(in)-8:], "C01-E8-long-runs")
+		}
+		if w.Expired() || w.TooManyViolations() {
+			return
+		}
+	}
+}
+
+// E9: every byte value between two tokens at every offset of a 64-byte block (the SIMD tables
+// that classify white space and structurals are per lane).
+func c01E9(w *W, emit emitFn) {
+	w.Note("E9: every byte value 0x00..0xff placed between two tokens at every offset 1..130 (two 64-byte blocks and a bit), in front of an array element, behind one and in front of an object value")
+	var in []byte
+	for b := 0; b < 256; b++ {
+		w.res.States++
+		if !w.Mine() {
+			continue
+		}
+		for off := 1; off <= 130; off++ {
+			for form := 0; form < 3; form++ {
+				in = in[:0]
+				var head, tail string
+				switch form {
+				case 0:
+					head, tail = "[", "1]"
+				case 1:
+					head, tail = "[1", "]"
+				default:
+					head, tail = `{"a":`, "1}"
+				}
+				if off < len(head) {
+					continue
+				}
+				in = append(in, head...)
+				for len(in) < off {
+					in = append(in, ' ')
+				}
+				in = append(in, byte(b))
+				in = append(in, tail...)
+				w.res.Transitions++
+				emit(in, []byte{byte(b)}, "C01-E9-byte-at-offset")
+			}
+		}
+		if w.Expired() || w.TooManyViolations() {
+			return
+		}
+	}
 }
 
 // E7: long number literals. The number scanner switches routes by literal length (19/20/21
